@@ -10,29 +10,40 @@ import (
 func init() { registry["C13"] = checkC13 }
 
 // keys of the terms that make up ParsePattern's path conditions
-type ppKeys struct{ S, SEP, WILD string }
+// (a prefix cut — strings.CutPrefix(s, lit), or HasPrefix followed by
+// re-slicing — reads as the test HasPrefix(s, lit) and the rest s[len(lit):])
+type ppKeys struct{ S, SEPok, SEPrest, WILD string }
+
+func cutOK(s, lit string) string {
+	return `call:strings.HasPrefix(` + s + `, ` + strconv.Quote(lit) + `)`
+}
+func cutRest(s, lit string) string {
+	return "slice(" + s + ", " + strconv.Itoa(len(lit)) + ", _, _)"
+}
 
 func newPPKeys() ppKeys {
 	k := ppKeys{}
 	k.S = "call:origins.parseScheme(param:str)"
-	k.SEP = `call:strings.CutPrefix(` + k.S + `#1, "://")`
-	k.WILD = `call:strings.HasPrefix(` + k.SEP + `#0, "*.")`
+	k.SEPok, k.SEPrest = cutOK(k.S+"#1", "://"), cutRest(k.S+"#1", "://")
+	k.WILD = `call:strings.HasPrefix(` + k.SEPrest + `, "*.")`
 	return k
 }
 func (k ppKeys) hostArg(w bool) string {
 	if w {
-		return "slice(" + k.SEP + "#0, 2, _, _)"
+		return "slice(" + k.SEPrest + ", 2, _, _)"
 	}
-	return k.SEP + "#0"
+	return k.SEPrest
 }
-func (k ppKeys) FH(w bool) string    { return "call:origins.fastParseHost(" + k.hostArg(w) + ")" }
-func (k ppKeys) host(w bool) string  { return k.FH(w) + "#0.Value" }
-func (k ppKeys) isIP(w bool) string  { return k.FH(w) + "#0.AssumeIP" }
-func (k ppKeys) rest(w bool) string  { return k.FH(w) + "#1" }
-func (k ppKeys) addr(w bool) string  { return "call:net/netip.ParseAddr(" + k.host(w) + ")" }
-func (k ppKeys) colon(w bool) string { return `call:strings.CutPrefix(` + k.rest(w) + `, ":")` }
-func (k ppKeys) star(w bool) string  { return `call:strings.CutPrefix(` + k.colon(w) + `#0, "*")` }
-func (k ppKeys) port(w bool) string  { return "call:origins.parsePort(" + k.colon(w) + "#0)" }
+func (k ppKeys) FH(w bool) string        { return "call:origins.fastParseHost(" + k.hostArg(w) + ")" }
+func (k ppKeys) host(w bool) string      { return k.FH(w) + "#0.Value" }
+func (k ppKeys) isIP(w bool) string      { return k.FH(w) + "#0.AssumeIP" }
+func (k ppKeys) rest(w bool) string      { return k.FH(w) + "#1" }
+func (k ppKeys) addr(w bool) string      { return "call:net/netip.ParseAddr(" + k.host(w) + ")" }
+func (k ppKeys) colonOK(w bool) string   { return cutOK(k.rest(w), ":") }
+func (k ppKeys) colonRest(w bool) string { return cutRest(k.rest(w), ":") }
+func (k ppKeys) starOK(w bool) string    { return cutOK(k.colonRest(w), "*") }
+func (k ppKeys) starRest(w bool) string  { return cutRest(k.colonRest(w), "*") }
+func (k ppKeys) port(w bool) string      { return "call:origins.parsePort(" + k.colonRest(w) + ")" }
 func (k ppKeys) toASCII(w bool) string {
 	return "call:(*golang.org/x/net/idna.Profile).ToASCII(*global:origins.profile, " + k.host(w) + ")"
 }
@@ -72,7 +83,7 @@ func checkC13(ctx *Ctx) *Result {
 	// loop bounds of the lexers use the limits
 	for _, lx := range []struct{ fn, bound, what string }{
 		{"parseScheme", "min:builtin.min(64, len:builtin.len(param:str))", "scheme scan bounded by min(64, len)"},
-		{"parsePort", "min:builtin.min(len:builtin.len(param:str), 5)", "port scan bounded by min(len, 5)"},
+		{"parsePort", "min:builtin.min(5, len:builtin.len(param:str))", "port scan bounded by min(len, 5)"},
 	} {
 		fn := p.Func(pkgOrigins, lx.fn)
 		if fn == nil {
@@ -294,7 +305,7 @@ func checkC13(ctx *Ctx) *Result {
 		{"scheme is not file", func(pa *Path, w bool) string {
 			return need(pa, `bin:==(`+k.S+`#0, "file")`, -1, "`file` scheme not rejected")
 		}},
-		{"scheme-host separator", func(pa *Path, w bool) string { return need(pa, k.SEP+"#1", 1, "`://` not required") }},
+		{"scheme-host separator", func(pa *Path, w bool) string { return need(pa, k.SEPok, 1, "`://` not required") }},
 		{"wildcard test", func(pa *Path, w bool) string {
 			if pa.Val(k.WILD) == 0 {
 				return "the leading `*.` is not looked for"
@@ -365,12 +376,12 @@ func checkC13(ctx *Ctx) *Result {
 			case 0:
 				return "the accepting path does not look at what follows the host"
 			}
-			if pa.Val(k.colon(w)+"#1") != 1 {
+			if pa.Val(k.colonOK(w)) != 1 {
 				return "something other than `:` may follow the host"
 			}
-			switch pa.Val(k.star(w) + "#1") {
+			switch pa.Val(k.starOK(w)) {
 			case 1:
-				return need(pa, `bin:==(`+k.star(w)+`#0, "")`, 1, "trailing input after `:*` not rejected")
+				return need(pa, `bin:==(`+k.starRest(w)+`, "")`, 1, "trailing input after `:*` not rejected")
 			case -1:
 				if pa.Val(k.port(w)+"#2") != 1 {
 					return "port not validated by parsePort"
@@ -380,16 +391,18 @@ func checkC13(ctx *Ctx) *Result {
 			return "the port wildcard is not looked for"
 		}},
 		{"default port elided", func(pa *Path, w bool) string {
-			if pa.Val("bin:<(0, len:builtin.len("+k.rest(w)+"))") != 1 || pa.Val(k.star(w)+"#1") != -1 {
+			if pa.Val("bin:<(0, len:builtin.len("+k.rest(w)+"))") != 1 || pa.Val(k.starOK(w)) != -1 {
 				return ""
 			}
 			for _, d := range []struct{ port, scheme string }{{"80", "http"}, {"443", "https"}} {
 				pk := "bin:==(" + k.port(w) + "#0, " + d.port + ")"
 				sk := `bin:==(` + k.S + `#0, "` + d.scheme + `")`
-				if pa.Val(pk) == 0 {
-					return "port " + d.port + " is not compared"
-				}
-				if pa.Val(pk) == 1 && pa.Val(sk) != -1 {
+				// the path excludes (port = default ∧ scheme = its scheme): one of the
+				// two is known to be false
+				if pa.Val(pk) != -1 && pa.Val(sk) != -1 {
+					if pa.Val(pk) == 0 {
+						return "port " + d.port + " is not compared"
+					}
 					return "default port " + d.port + " of " + d.scheme + " not rejected"
 				}
 			}
@@ -403,16 +416,17 @@ func checkC13(ctx *Ctx) *Result {
 	r.rule("R13.10", "every rejection of ParsePattern is decided by a documented defect (no additional, undocumented rejections)", 16)
 	{
 		type cond struct {
-			key string
-			pos bool
+			key  string
+			pos  bool
+			with string // a condition the path must also carry (positively)
 		}
 		var doc []cond
-		add := func(key string, pos bool) { doc = append(doc, cond{key, pos}) }
+		add := func(key string, pos bool) { doc = append(doc, cond{key, pos, ""}) }
 		add(`bin:==(param:str, "*")`, true)
 		add(`bin:==(param:str, "null")`, true)
 		add(k.S+"#2", false)
 		add(`bin:==(`+k.S+`#0, "file")`, true)
-		add(k.SEP+"#1", false)
+		add(k.SEPok, false)
 		add("bin:<(251, len:builtin.len("+k.host(true)+"))", true)
 		add(k.isIP(true), true)
 		for _, w := range []bool{false, true} {
@@ -422,10 +436,14 @@ func checkC13(ctx *Ctx) *Result {
 			add("call:(net/netip.Addr).Is4In6("+k.addr(w)+"#0)", true)
 			add("bin:==(call:(net/netip.Addr).String("+k.addr(w)+"#0), "+k.host(w)+")", false)
 			add("bin:==("+k.toASCII(w)+"#1, nil)", false)
-			add(k.colon(w)+"#1", false)
-			add(`bin:==(`+k.star(w)+`#0, "")`, false)
+			add(k.colonOK(w), false)
+			add("bin:==(index("+k.rest(w)+", 0), 58)", false) // the same test on the first byte of a non-empty rest
+			add(`bin:==(`+k.starRest(w)+`, "")`, false)
 			add(k.port(w)+"#2", false)
 			add(`bin:==(`+k.port(w)+`#1, "")`, false)
+			// the scheme's default port, when the port is what is tested last
+			doc = append(doc, cond{"bin:==(" + k.port(w) + "#0, 80)", true, `bin:==(` + k.S + `#0, "http")`})
+			doc = append(doc, cond{"bin:==(" + k.port(w) + "#0, 443)", true, `bin:==(` + k.S + `#0, "https")`})
 		}
 		add(`bin:==(`+k.S+`#0, "https")`, true) // https with an IP host; default port 443
 		add(`bin:==(`+k.S+`#0, "http")`, true)  // default port 80
@@ -436,7 +454,7 @@ func checkC13(ctx *Ctx) *Result {
 			la := pa.Atoms[len(pa.Atoms)-1]
 			found := false
 			for _, d := range doc {
-				if d.key == la.T.Key() && d.pos == la.Pos {
+				if d.key == la.T.Key() && d.pos == la.Pos && (d.with == "" || pa.Val(d.with) == 1) {
 					found = true
 				}
 			}
@@ -476,7 +494,7 @@ func checkC13(ctx *Ctx) *Result {
 		}
 		wantPort := "0"
 		if pa.Val("bin:<(0, len:builtin.len("+k.rest(w)+"))") == 1 {
-			if pa.Val(k.star(w)+"#1") == 1 {
+			if pa.Val(k.starOK(w)) == 1 {
 				wantPort = "65536"
 			} else {
 				wantPort = k.port(w) + "#0"
@@ -525,10 +543,8 @@ func checkC13(ctx *Ctx) *Result {
 		fmt.Sprintf("Parse rejects origins longer than %d bytes, but an accepted pattern can be %d bytes long (64-byte scheme, 253-byte domain plus trailing dot, 5-digit port): presenting it verbatim as an Origin is refused", capVal, longest), 1)
 	capKey := fmt.Sprintf("bin:<(%d, len:builtin.len(param:str))", capVal)
 	S := "call:origins.parseScheme(param:str)"
-	SEP := `call:strings.CutPrefix(` + S + `#1, "://")`
-	FH := "call:origins.fastParseHost(" + SEP + "#0)"
-	COL := `call:strings.CutPrefix(` + FH + `#1, ":")`
-	PORT := "call:origins.parsePort(" + COL + "#0)"
+	FH := "call:origins.fastParseHost(" + cutRest(S+"#1", "://") + ")"
+	PORT := "call:origins.parsePort(" + cutRest(FH+"#1", ":") + ")"
 	badCap, badLex, badTrail := "", "", ""
 	nAcc := 0
 	for _, pa := range pp {
@@ -539,18 +555,45 @@ func checkC13(ctx *Ctx) *Result {
 		if pa.Val(capKey) != -1 {
 			badCap = "an accepting path of Parse is not guarded by the overall length cap " + capKey
 		}
-		if pa.Val(S+"#2") != 1 || pa.Val(SEP+"#1") != 1 || pa.Val(FH+"#2") != 1 {
+		if pa.Val(S+"#2") != 1 || pa.Val(cutOK(S+"#1", "://")) != 1 || pa.Val(FH+"#2") != 1 {
 			badLex = "an accepting path of Parse skips a lexer (scheme, ://, host)"
 		}
 		switch pa.Val("bin:<(0, len:builtin.len(" + FH + "#1))") {
 		case 1:
-			if pa.Val(COL+"#1") != 1 || pa.Val(PORT+"#2") != 1 || pa.Val(`bin:==(`+PORT+`#1, "")`) != 1 {
+			if pa.Val(cutOK(FH+"#1", ":")) != 1 || pa.Val(PORT+"#2") != 1 || pa.Val(`bin:==(`+PORT+`#1, "")`) != 1 {
 				badTrail = "Parse accepts input after the host that is not `:` port with nothing left over"
 			}
 		case 0:
 			badTrail = "Parse does not look at what follows the host"
 		}
 	}
+	// the accepted origin is what was lexed, nothing else: scheme, host and —
+	// when a port was written — exactly that port, otherwise 0 ("no port")
+	badAsm := ""
+	for _, pa := range pp {
+		if len(pa.Rets) != 2 || !pa.Rets[1].IsConst("true") {
+			continue
+		}
+		o := pa.Rets[0]
+		if o.Op != "composite" {
+			badAsm = "cannot see how the accepted origin is assembled: " + o.Key()
+			continue
+		}
+		if got := fieldOf(o, "Scheme").Key(); got != S+"#0" {
+			badAsm = "Origin.Scheme is not the lexed scheme: " + got
+		}
+		if h := fieldOf(o, "Host"); h.Key() != FH+"#0" {
+			badAsm = "Origin.Host is not the lexed host: " + h.Key()
+		}
+		wantPort := "0"
+		if pa.Val("bin:<(0, len:builtin.len("+FH+"#1))") == 1 {
+			wantPort = PORT + "#0"
+		}
+		if got := fieldOf(o, "Port").Key(); got != wantPort {
+			badAsm = "Origin.Port is " + got + ", expected " + wantPort + " (the port as written; 0 only when none is written)"
+		}
+	}
+	r.check(badAsm == "", "R13.5", "Parse: the accepted origin is assembled from the lexed scheme, host and port", p.Pos(pf.Pos()), badAsm, nAcc)
 	r.check(badCap == "" && nAcc > 0, "R13.5", "Parse: overall length cap", p.Pos(pf.Pos()), badCap, len(pp))
 	r.check(badLex == "", "R13.5", "Parse: scheme, separator and host lexed", p.Pos(pf.Pos()), badLex, len(pp))
 	r.check(badTrail == "", "R13.5", "Parse: trailing input rejected", p.Pos(pf.Pos()), badTrail, len(pp))
@@ -561,13 +604,17 @@ func checkC13(ctx *Ctx) *Result {
 	sort.Strings(rs)
 	r.sample(map[string]any{"ParsePattern_paths": len(paths), "accepting": nOK, "rejecting": nRej, "rejection_reasons": rs, "guards_checked": len(guards)})
 	lexerRules(ctx, r)
+	// "presenting an accepted wildcard-free pattern verbatim as an Origin is
+	// allowed by it" also rests on the tree storing the pattern's host as
+	// parsed and Contains walking it byte for byte
+	treeRules(ctx, r)
 	return r
 }
 
 func shortAtoms(pa *Path) string {
 	s := pa.AtomString()
 	for _, rp := range [][2]string{
-		{`call:strings.CutPrefix(call:origins.parseScheme(param:str)#1, "://")`, "SEP"},
+		{`slice(call:origins.parseScheme(param:str)#1, 3, _, _)`, "SEP#0"},
 		{"call:origins.parseScheme(param:str)", "SCHEME"},
 		{"call:origins.fastParseHost(slice(SEP#0, 2, _, _))", "HOSTw"},
 		{"call:origins.fastParseHost(SEP#0)", "HOST"},
